@@ -44,7 +44,7 @@ def diff(a, b, pa, pb, path, out, seen):
                 out.append((path + [f"{x[0]}[{i}]"], str(u)[:60], str(v)[:60]))
     return
 
-patch = sys.argv[1]
+patch = os.path.abspath(sys.argv[1])
 sub = sys.argv[2] if len(sys.argv) > 2 else ""
 d = tempfile.mkdtemp(prefix="e8d_")
 try:
